@@ -865,8 +865,8 @@ def mon_c02(case, intents, obs):
                 if exp == "reject-unknown" and m.get("seid") != 0:
                     out.append(("rejected-seid", f"event {i}: rejected {it['op']} for an unknown session carries SEID {m.get('seid')}", i))
             if req == P.SE_REQ and exp == "accept" and cause == P.CAUSE_ACCEPTED:
-                if m.get("nodeid") != case["cfg"]["n4addr"]:
-                    out.append(("est-nodeid", f"event {i}: Node ID {m.get('nodeid')}", i))
+                if m.get("nodeid") != (case["cfg"].get("node_id") or case["cfg"]["n4addr"]):
+                    out.append(("est-nodeid", f"event {i}: Node ID {m.get('nodeid')}, configured {case['cfg'].get('node_id')!r}, N4 address {case['cfg']['n4addr']}", i))
                 uf = m.get("upfseid")
                 if not uf or uf == "err" or uf[0] == 0 or uf[1] != N4_IP:
                     out.append(("est-upfseid", f"event {i}: UP F-SEID {uf}", i))
@@ -1300,6 +1300,7 @@ def soak_scenarios(rng):
     g.setup(1)                        # rejected: no datapath behind the agent
     g.heartbeat(1)
     g.datapath(True)
+    g.establish(1, npairs=1, nqers=1, chv4=False, choose=False)      # the rejected set-up left no association: refused, writes nothing
     g.setup(1)
     l2 = g.establish(1, npairs=1, nqers=1, chv4=False, choose=False)
     g.delete(l2)
@@ -1354,4 +1355,65 @@ def pool_scenarios(rng):
         g.delete(l)
     g.heartbeat(0)
     out.append(("shared-address-after-remove-pdr", {"cfg": g.cfg, "events": g.events}, g.intents, 1))
+    return out
+
+
+def variant_scenarios(rng, per_variant=4):
+    """random valid histories under configuration variants the Coq-replayed histories do not use (monitor only):
+    Node ID configured as an address other than the N4 address / as a name, debug log level, heartbeat monitor on.
+    -> (name, case, intents, number of probe events at the end)"""
+    out = []
+    variants = [("node-id-other-address", dict(node_id="192.0.2.77")), ("node-id-name", dict(node_id="upf.example.org")),
+                ("log-level-debug", dict(log_level="debug")), ("log-level-debug-small-pool", dict(log_level="debug", pool="10.250.0.8/29")),
+                ("heartbeat-monitor", dict(hb_timer=True))]
+    for name, kw in variants:
+        for k in range(per_variant):
+            sub = random.Random(rng.getrandbits(64))
+            case, intents, views = random_history(sub, cfg=default_cfg(**kw), length=sub.choice([10, 16]), restarts=False)
+            out.append((f"{name}/{k}", case, intents, 0))
+    return out
+
+
+def pfd_then_pdr_scenarios(rng):
+    """a PFD Management Request with a flow description that cannot be parsed (accepted: texts are stored verbatim),
+    then Session Establishments / Modifications whose PDRs name that application, then probes (monitor only)"""
+    out = []
+    base = ["permit out ip from any to assigned", "permit in ip from any 5000 to assigned"]
+    bad = ["permit out ip from any", "permit out", "x", "permit out ip from 1.2.3 to assigned", "permit in ip from any 9-1 to assigned",
+           "deny sideways ip from any to any", "permit out ip from any to"]
+    for k, b in enumerate(bad):
+        for order in (0, 1):
+            g = Gen(rng)
+            g.setup(0)
+            flows = [b, base[0], base[1]] if order == 0 else [base[0], b, base[1]]
+            g.pfd(0, {"app1": flows, "app2": [b]})
+            g.intents[-1]["wf"] = False        # accepted (texts are stored verbatim) or refused by the decoder: both allowed
+            for app in ("app1", "app2"):
+                seq = g._seq()
+                ue = ip(10, 60, 7, 1 + k)
+                ul, dl = g.new_pdr_pair(0, with_sdf=False, choose=False, chv4=False, fixed_ue=ue)
+                ul["appid"] = dl["appid"] = app
+                ulf, dlf = g.new_far_pair(0)
+                n = g.next_lseid.get(0, 0) + 1
+                g.next_lseid[0] = n
+                lseid = 1000000 + n
+                ies = [P.node_id_v4(peer_ip(0)), P.fseid(500 + n, peer_ip(0))] + [pdr_ie(P.CREATE_PDR, x) for x in (ul, dl)] + [far_ie(P.CREATE_FAR, x) for x in (ulf, dlf)]
+                # accepted with the application's usable flow, or refused: either is allowed here, but exactly one answer and no crash
+                g.emit(0, P.message(P.SE_REQ, seq, ies, seid=0), {"op": "est", "seq": seq, "req": P.SE_REQ, "wf": False, "lseid": lseid, "kind": "app-with-bad-flow"})
+            g.heartbeat(0)
+            g.setup(1)
+            l = g.establish(1, npairs=1, nqers=1, chv4=False, choose=False)
+            g.delete(l)
+            out.append((f"pfd-bad-flow/{k}/{order}", {"cfg": g.cfg, "events": g.events}, g.intents, 4))
+    return out
+
+
+def mon_rejected_writes_nothing(case, intents, obs):
+    """C03's last sentence on the fixed scenarios: a request expected to be rejected is rejected and sends no command to the datapath"""
+    out = list(mon_c02(case, intents, obs))
+    for i, (it, o) in enumerate(zip(intents, obs)):
+        if str(it.get("expect", "")).startswith("reject") and it.get("req") in (P.SE_REQ, P.SM_REQ, P.SD_REQ) and not it.get("refused_by_datapath"):
+            n = o["cmds"] if isinstance(o.get("cmds"), int) else len([c for c in o.get("cmds", []) if c.get("c") != "clear"])
+            if n:
+                out.append(("rejected-request-wrote", f"event {i} ({it.get('op')}/{it.get('expect')}): a rejected request sent {n} commands to the datapath", i))
     return out
